@@ -512,3 +512,425 @@ theorem rel_append (c : Chan) (T : Chain) (I J I' J' : List Item)
 
 
 end QP.C05
+
+namespace QP.C05
+open QP.PT
+
+/-! ## `LoopGuard` -/
+
+theorem endsOk_tail_measure (m : List Window) (r : List Item) (h : endsOk (.measure m :: r) = true) :
+    r ≠ [] ∧ endsOk r = true := by
+  cases r with
+  | nil => simp [endsOk] at h
+  | cons y ys =>
+    refine ⟨by simp, ?_⟩
+    simp only [endsOk] at h ⊢
+    rw [List.getLast?_cons_cons] at h
+    exact h
+
+theorem endsOk_tail_node (l : Loop) (r : List Item) (h : endsOk (.node l :: r) = true) : endsOk r = true := by
+  cases r with
+  | nil => rfl
+  | cons y ys =>
+    simp only [endsOk] at h ⊢
+    rw [List.getLast?_cons_cons] at h
+    exact h
+
+theorem guardRun_nodes : ∀ (I : List Item) (p : List Window), itemsNodes (guardRun p I) = itemsNodes I
+  | [], p => by simp [guardRun, itemsNodes]
+  | .measure m :: r, p => by simp [guardRun, itemsNodes, guardRun_nodes r]
+  | .node l :: r, p => by
+      simp only [guardRun, itemsNodes_append, itemsNodes, guardRun_nodes r]
+      split <;> simp [itemsNodes]
+
+theorem guardRun_meas : ∀ (I : List Item) (p : List Window) (off : Rat), endsOk I = true →
+    itemsMeas (guardRun p I) off =
+      if itemsNodes I = [] then [] else p.map (shiftW off) ++ itemsMeas I off
+  | [], p, off, _ => by simp [guardRun, itemsMeas, itemsNodes]
+  | .measure m :: r, p, off, h => by
+      obtain ⟨hne, hr⟩ := endsOk_tail_measure m r h
+      have hn : itemsNodes r ≠ [] := fun hn => hne (endsOk_nodes_nil r hr hn)
+      simp only [guardRun, itemsNodes, itemsMeas]
+      rw [guardRun_meas r (p ++ m) off hr]
+      simp [hn]
+  | .node l :: r, p, off, h => by
+      have hr := endsOk_tail_node l r h
+      have hcons : ¬ (itemsNodes (Item.node l :: r) = []) := by simp [itemsNodes]
+      simp only [hcons, if_false]
+      have key : itemsMeas (Item.node l :: guardRun [] r) off = itemsMeas (Item.node l :: r) off := by
+        simp only [itemsMeas]
+        rw [guardRun_meas r [] _ hr]
+        by_cases hn : itemsNodes r = []
+        · have := endsOk_nodes_nil r hr hn
+          subst this
+          simp [itemsMeas, itemsNodes]
+        · simp [hn]
+      simp only [guardRun]
+      by_cases hp : p.isEmpty = true
+      · have : p = [] := List.isEmpty_iff.mp hp
+        subst this
+        simp only [List.isEmpty_nil, if_true, List.nil_append, List.map_nil]
+        exact key
+      · simp only [hp, if_false, List.cons_append, List.nil_append]
+        show p.map (shiftW off) ++ itemsMeas (Item.node l :: guardRun [] r) off = _
+        rw [key]
+
+theorem endsOk_append_ne (I J : List Item) (hj : J ≠ []) : endsOk (I ++ J) = endsOk J := by
+  simp only [endsOk]
+  rw [List.getLast?_append]
+  cases hl : J.getLast? with
+  | none => exact absurd (List.getLast?_eq_none_iff.mp hl) hj
+  | some x => simp
+
+theorem guardRun_endsOk : ∀ (I : List Item) (p : List Window), endsOk I = true → endsOk (guardRun p I) = true
+  | [], p, _ => by simp [guardRun, endsOk]
+  | .measure m :: r, p, h => by
+      simp only [guardRun]
+      exact guardRun_endsOk r _ (endsOk_tail_measure m r h).2
+  | .node l :: r, p, h => by
+      simp only [guardRun]
+      have ih := guardRun_endsOk r [] (endsOk_tail_node l r h)
+      rw [endsOk_append_ne _ _ (by simp)]
+      · cases hg : guardRun [] r with
+        | nil => simp [endsOk]
+        | cons y ys =>
+          rw [hg] at ih
+          simp only [endsOk] at ih ⊢
+          rw [List.getLast?_cons_cons]
+          exact ih
+
+theorem inv_guardRun (I : List Item) (p : List Window) (h : Inv I) : Inv (guardRun p I) where
+  trail := guardRun_endsOk I p h.trail
+  cst := by rw [guardRun_nodes]; exact h.cst
+  pos := by rw [guardRun_nodes]; exact h.pos
+  nn := by rw [guardRun_nodes]; exact h.nn
+
+theorem rel_guardRun (c : Chan) (T : Chain) (I I' : List Item) (p : List Window)
+    (hI : endsOk I = true) (hI' : endsOk I' = true) (h : Rel c T I I') :
+    Rel c T (guardRun p I) (guardRun p I') where
+  empty := by rw [guardRun_nodes, guardRun_nodes]; exact h.empty
+  dur := by simp only [itemsDur, guardRun_nodes]; exact h.dur
+  win := by
+    simp only [itemsWin, guardRun_nodes, guardRun_meas I p 0 hI, guardRun_meas I' p 0 hI']
+    by_cases hn : itemsNodes I = []
+    · have hn' := h.empty.mp hn
+      simp [hn, hn', Loop.windowsList]
+    · have hn' : itemsNodes I' ≠ [] := fun e => hn (h.empty.mpr e)
+      simp only [hn, hn', if_false, List.append_assoc]
+      exact List.Perm.append_left _ h.win
+  pres := by simp only [allPres, guardRun_nodes]; exact h.pres
+  samp := by
+    simp only [allPres, itemsDur, guardRun_nodes]
+    exact h.samp
+
+
+end QP.C05
+
+namespace QP.C05
+open QP.PT
+
+/-! ## observables of one appended loop -/
+
+theorem rel_congr (c : Chan) (T : Chain) (I J I' J' : List Item)
+    (hn : itemsNodes I = itemsNodes J) (hm : itemsMeas I 0 = itemsMeas J 0)
+    (hn' : itemsNodes I' = itemsNodes J') (hm' : itemsMeas I' 0 = itemsMeas J' 0)
+    (h : Rel c T I I') : Rel c T J J' where
+  empty := by rw [← hn, ← hn']; exact h.empty
+  dur := by simp only [itemsDur, ← hn, ← hn']; exact h.dur
+  win := by simp only [itemsWin, ← hn, ← hn', ← hm, ← hm']; exact h.win
+  pres := by simp only [allPres, ← hn, ← hn']; exact h.pres
+  samp := by simp only [allPres, itemsDur, ← hn, ← hn']; exact h.samp
+
+/-- the items `[measure ms, node l]` -/
+theorem one_nodes (ms : List Window) (l : Loop) : itemsNodes [Item.measure ms, Item.node l] = [l] := rfl
+
+theorem one_dur (ms : List Window) (l : Loop) : itemsDur [Item.measure ms, Item.node l] = l.duration := by
+  simp only [itemsDur, itemsNodes, Loop.durationList]; grind
+
+theorem one_win (ms : List Window) (l : Loop) : itemsWin [Item.measure ms, Item.node l] 0 = ms ++ l.windows := by
+  simp only [itemsWin, itemsMeas, itemsNodes, Loop.windowsList, List.append_nil]
+  congr 1
+  · conv => rhs; rw [← List.map_id ms]
+    exact List.map_congr_left (fun w _ => shiftW_zero w)
+  · conv => rhs; rw [← List.map_id l.windows]
+    exact List.map_congr_left (fun w _ => shiftW_zero w)
+
+theorem one_pres (c : Chan) (ms : List Window) (l : Loop) :
+    allPres c [Item.measure ms, Item.node l] = allLeaves (fun x => x.channels.contains c) l := by
+  simp [allPres, itemsNodes, allLeavesList]
+
+theorem one_sample (c : Chan) (l : Loop) (t : Rat) (h : t < l.duration) :
+    Loop.sampleList [l] c t = l.sample c t := by
+  simp [Loop.sampleList, h]
+
+/-- relation between two single loops from their observables -/
+theorem rel_one (c : Chan) (T : Chain) (ms : List Window) (l l' : Loop)
+    (hd : l.duration = l'.duration) (hw : l.windows.Perm l'.windows)
+    (hp : allLeaves (fun x => x.channels.contains c) l =
+      (allLeaves (fun x => x.channels.contains c) l' || Chain.presF T c false))
+    (hs : allLeaves (fun x => x.channels.contains c) l = true → ∀ t, 0 ≤ t → t < l.duration →
+      some (l.sample c t) = Chain.chanF T c (if allLeaves (fun x => x.channels.contains c) l' then
+        some (l'.sample c t) else none)) :
+    Rel c T [Item.measure ms, Item.node l] [Item.measure ms, Item.node l'] where
+  empty := by simp [itemsNodes]
+  dur := by rw [one_dur, one_dur, hd]
+  win := by rw [one_win, one_win]; exact List.Perm.append_left _ hw
+  pres := by rw [one_pres, one_pres, hp]
+  samp := by
+    intro hA t h0 ht
+    rw [one_pres] at hA
+    rw [one_dur] at ht
+    rw [one_pres, one_nodes, one_nodes, one_sample c l t ht, one_sample c l' t (hd ▸ ht)]
+    exact hs hA t h0 ht
+
+/-! ## repetition -/
+
+/-- the loop `with_repetition` builds from the items of its body -/
+def repLoop (n : Nat) (I : List Item) : Loop := Loop.mk n none (itemsMeas I 0) (itemsNodes I)
+
+theorem applyItems_repLoop (n : Nat) (I : List Item) : (Loop.mk n none [] []).applyItems I = repLoop n I := by
+  rw [applyItems_eq]
+  simp [repLoop, Loop.durationList]
+
+theorem repLoop_isEmpty (n : Nat) (I : List Item) : (repLoop n I).isEmpty = (itemsNodes I).isEmpty := by
+  simp [repLoop, Loop.isEmpty, Loop.wf, Loop.children]
+
+theorem repLoop_duration (n : Nat) (I : List Item) : (repLoop n I).duration = itemsDur I * n := by
+  simp only [repLoop, Loop.duration, bodyDuration_none, itemsDur]
+
+theorem repLoop_windows (n : Nat) (I : List Item) :
+    (repLoop n I).windows = repeatWindows (itemsWin I 0) n (itemsDur I) := by
+  simp only [repLoop, Loop.windows, bodyDuration_none, itemsWin, itemsDur]
+
+theorem allLeaves_none (p : Wf → Bool) (n : Nat) (m : List Window) (cs : List Loop) :
+    allLeaves p (Loop.mk n none m cs) = allLeavesList p cs := by
+  cases cs <;> simp [allLeaves, allLeavesList]
+
+theorem repLoop_pres (c : Chan) (n : Nat) (I : List Item) :
+    allLeaves (fun x => x.channels.contains c) (repLoop n I) = allPres c I := by
+  simp only [repLoop, allLeaves_none, allPres]
+
+theorem repLoop_sample (c : Chan) (n : Nat) (I : List Item) (t : Rat) (h0 : 0 ≤ t)
+    (h1 : t < (repLoop n I).duration) :
+    0 ≤ t - ((t / itemsDur I).floor : Rat) * itemsDur I ∧
+    t - ((t / itemsDur I).floor : Rat) * itemsDur I < itemsDur I ∧
+    (repLoop n I).sample c t =
+      Loop.sampleList (itemsNodes I) c (t - ((t / itemsDur I).floor : Rat) * itemsDur I) := by
+  obtain ⟨_, s2, s3, s4⟩ := sample_mk (repLoop n I) c t h0 h1
+  have hbd : (repLoop n I).bodyDuration = itemsDur I := by simp [repLoop, bodyDuration_none, itemsDur]
+  rw [hbd] at s2 s3 s4
+  refine ⟨s2, s3, ?_⟩
+  rw [s4]
+  simp only [repLoop, bodySample]
+  cases hn : itemsNodes I with
+  | nil => simp [Loop.sampleList]
+  | cons x r => rfl
+
+theorem rel_rep (c : Chan) (T : Chain) (n : Nat) (ms : List Window) (I I' : List Item) (h : Rel c T I I') :
+    Rel c T (tryAppend ((Loop.mk n none [] []).applyItems I) ms)
+      (tryAppend ((Loop.mk n none [] []).applyItems I') ms) := by
+  rw [applyItems_repLoop, applyItems_repLoop]
+  unfold tryAppend
+  rw [repLoop_isEmpty, repLoop_isEmpty]
+  by_cases hn : itemsNodes I = []
+  · have hn' := h.empty.mp hn
+    simp only [hn, hn', List.isEmpty_nil, if_true]
+    exact rel_refl c [] |> fun r => by
+      exact ⟨Iff.rfl, rfl, List.Perm.refl _, by simp [allPres, itemsNodes, allLeavesList], by
+        intro _ t h0 ht
+        simp [itemsDur, itemsNodes, Loop.durationList] at ht
+        exact absurd ht (by grind)⟩
+  · have hn' : itemsNodes I' ≠ [] := fun e => hn (h.empty.mpr e)
+    have e1 : (itemsNodes I).isEmpty = false := by simpa using hn
+    have e2 : (itemsNodes I').isEmpty = false := by simpa using hn'
+    simp only [e1, e2, Bool.false_eq_true, if_false]
+    apply rel_one
+    · rw [repLoop_duration, repLoop_duration, h.dur]
+    · rw [repLoop_windows, repLoop_windows, h.dur]
+      exact repeatWindows_perm _ _ h.win n _
+    · rw [repLoop_pres, repLoop_pres]; exact h.pres
+    · intro hA t h0 ht
+      rw [repLoop_pres] at hA
+      rw [repLoop_pres]
+      obtain ⟨a1, a2, a3⟩ := repLoop_sample c n I t h0 ht
+      have ht' : t < (repLoop n I').duration := by
+        rw [repLoop_duration, ← h.dur, ← repLoop_duration]; exact ht
+      obtain ⟨_, _, b3⟩ := repLoop_sample c n I' t h0 ht'
+      rw [a3, b3, ← h.dur]
+      exact h.samp hA _ a1 a2
+
+
+theorem inv_rep (n : Nat) (hn : 1 ≤ n) (ms : List Window) (I : List Item) (h : Inv I) :
+    Inv (tryAppend ((Loop.mk n none [] []).applyItems I) ms) := by
+  rw [applyItems_repLoop]
+  unfold tryAppend
+  rw [repLoop_isEmpty]
+  by_cases he : itemsNodes I = []
+  · simp only [he, List.isEmpty_nil, if_true]; exact inv_nil
+  · have e1 : (itemsNodes I).isEmpty = false := by simpa using he
+    simp only [e1, Bool.false_eq_true, if_false]
+    refine ⟨by simp [endsOk], ?_, ?_, ?_⟩
+    · simp only [itemsNodes, allLeavesList, Bool.and_true, repLoop, allLeaves_none]; exact h.cst
+    · have hp := h.pos
+      have : posReps (repLoop n I) = true := by
+        unfold repLoop
+        cases hc : itemsNodes I with
+        | nil => exact absurd hc he
+        | cons x r =>
+          rw [hc] at hp
+          rw [posReps]
+          simp only [Bool.and_eq_true, decide_eq_true_eq]
+          exact ⟨hn, hp⟩
+      simp only [itemsNodes, posRepsList, this, Bool.and_self]
+    · simp only [itemsNodes, allLeavesList, Bool.and_true, repLoop, allLeaves_none]; exact h.nn
+
+/-! ## a single played waveform -/
+
+theorem leaf_duration (w : Wf) : (leaf w).duration = w.duration := by
+  simp only [leaf, Loop.duration, Loop.bodyDuration]
+  have : ((1 : Nat) : Rat) = 1 := rfl
+  rw [this]; grind
+
+theorem leaf_windows (w : Wf) : (leaf w).windows = [] := by
+  simp [leaf, Loop.windows, Loop.windowsList, repeatWindows_one]
+
+theorem leaf_sample (w : Wf) (c : Chan) (t : Rat) (h0 : 0 ≤ t) (h1 : t < w.duration) :
+    (leaf w).sample c t = w.sample c t := by
+  have h1' : t < (leaf w).duration := by rw [leaf_duration]; exact h1
+  obtain ⟨s1, _, _, s4⟩ := sample_mk (leaf w) c t h0 h1'
+  have hbd : (leaf w).bodyDuration = w.duration := by simp [leaf, Loop.bodyDuration]
+  rw [hbd] at s1 s4
+  have h1'' : t < w.duration * ((1 : Nat) : Rat) := by
+    have : ((1 : Nat) : Rat) = 1 := rfl
+    rw [this]; grind
+  obtain ⟨k0, k1, _, _⟩ := floor_range t w.duration 1 s1 h0 h1''
+  have hk : (t / w.duration).floor = 0 := by omega
+  rw [s4, hk]
+  have : t - ((0 : Int) : Rat) * w.duration = t := by
+    have : ((0 : Int) : Rat) = 0 := rfl
+    rw [this]; grind
+  rw [this]
+  rfl
+
+theorem leaf_allLeaves (p : Wf → Bool) (w : Wf) : allLeaves p (leaf w) = p w := by simp [leaf, allLeaves]
+
+theorem inv_leaf (ms : List Window) (w : Wf) (hc : cst w = true) (hn : 0 ≤ w.duration) :
+    Inv [Item.measure ms, Item.node (leaf w)] where
+  trail := by simp [endsOk]
+  cst := by simp [itemsNodes, allLeavesList, leaf_allLeaves, hc]
+  pos := by simp [itemsNodes, posRepsList, posReps, leaf]
+  nn := by simp [itemsNodes, allLeavesList, leaf_allLeaves, nonnegW, hn]
+
+/-- two played waveforms related channel-wise by `T` -/
+theorem rel_leaf (c : Chan) (T : Chain) (ms : List Window) (w w' : Wf) (hd : w.duration = w'.duration)
+    (hpv : ∀ t, pv w c t = Chain.chanF T c (pv w' c t)) :
+    Rel c T [Item.measure ms, Item.node (leaf w)] [Item.measure ms, Item.node (leaf w')] := by
+  have hpres : w.channels.contains c = (w'.channels.contains c || Chain.presF T c false) := by
+    have := congrArg Option.isSome (hpv 0)
+    rw [pv_isSome, Chain.chanF_isSome, pv_isSome, Chain.presF_or] at this
+    exact this
+  apply rel_one
+  · rw [leaf_duration, leaf_duration, hd]
+  · rw [leaf_windows, leaf_windows]
+  · rw [leaf_allLeaves, leaf_allLeaves]; exact hpres
+  · intro hA t h0 ht
+    rw [leaf_allLeaves] at hA
+    rw [leaf_duration] at ht
+    rw [leaf_allLeaves, leaf_sample w c t h0 ht, leaf_sample w' c t h0 (hd ▸ ht)]
+    have := hpv t
+    rw [pv_of_present w c t hA] at this
+    rw [this]
+    unfold pv
+    rfl
+
+
+/-! ## `new_subprogram`: a part collapsed into one waveform -/
+
+theorem fromTransformation_tidy_inv (w w' : Wf) (T : Chain) (hc : cst w = true)
+    (h : fromTransformation w T = .ok w') (c : Chan) (ht : tidy c w' = true) : tidy c w = true := by
+  unfold fromTransformation at h
+  split at h
+  · rename_i cv hcv
+    exact noRep_tidy c w (cst_const_noRep w cv hc hcv)
+  · simp only [Except.ok.injEq] at h
+    subst h
+    simpa [tidy] using ht
+
+/-- the waveform `new_subprogram` plays for the inner program and the global transformation `T` -/
+def collapseWf (w0 : Wf) (T : Chain) : Except Err Wf :=
+  if T.isEmpty then pure w0 else fromTransformation w0 T
+
+theorem collapseWf_spec (w0 w : Wf) (T : Chain) (hc : cst w0 = true) (h : collapseWf w0 T = .ok w) :
+    w.duration = w0.duration ∧ cst w = true ∧ (∀ c t, pv w c t = Chain.chanF T c (pv w0 c t)) ∧
+      (∀ c, tidy c w = true → tidy c w0 = true) := by
+  unfold collapseWf at h
+  by_cases hT : T.isEmpty = true
+  · have : T = [] := List.isEmpty_iff.mp hT
+    subst this
+    simp only [List.isEmpty_nil, if_true, pure, Except.pure, Except.ok.injEq] at h
+    subst h
+    exact ⟨rfl, hc, fun c t => rfl, fun c h => h⟩
+  · simp only [hT, if_false] at h
+    obtain ⟨a1, a2, a3, _⟩ := fromTransformation_spec w0 w T hc h
+    exact ⟨a1, a2, a3, fun c ht => fromTransformation_tidy_inv w0 w T hc h c ht⟩
+
+theorem rel_collapse (c : Chan) (T : Chain) (I0 : List Item) (root : Loop) (w0 w : Wf)
+    (hinv : Inv I0) (hroot : toProgram I0 = some root) (hw0 : root.toWaveform = .ok w0)
+    (hw : collapseWf w0 T = .ok w) :
+    Inv [Item.measure root.windows, Item.node (leaf w)] ∧
+    (tidy c w = true →
+      Rel c T [Item.measure root.windows, Item.node (leaf w)] I0 ∧
+      allLeavesList (tidy c) (itemsNodes I0) = true) := by
+  rw [toProgram_eq] at hroot
+  have hne : itemsNodes I0 ≠ [] := by
+    intro e; simp [e] at hroot
+  have he : (itemsNodes I0).isEmpty = false := by simpa using hne
+  simp only [he, Bool.false_eq_true, if_false, Option.some.injEq] at hroot
+  subst hroot
+  have hpos : posReps (rootOf I0) = true := by
+    unfold rootOf
+    cases hc : itemsNodes I0 with
+    | nil => exact absurd hc hne
+    | cons x r =>
+      have hp := hinv.pos
+      rw [hc] at hp
+      rw [posReps]
+      simp only [Bool.and_eq_true, decide_eq_true_eq]
+      exact ⟨Nat.le_refl 1, hp⟩
+  have hcst : allLeaves QP.C05.cst (rootOf I0) = true := by
+    simp only [rootOf, allLeaves_none]; exact hinv.cst
+  have tw := toWaveform_TW (rootOf I0) w0 hw0 hpos hcst
+  obtain ⟨b1, b2, b3, b4⟩ := collapseWf_spec w0 w T tw.cst hw
+  have hdur : w.duration = itemsDur I0 := by rw [b1, tw.dur, rootOf_duration]
+  have hnn : 0 ≤ w.duration := by rw [hdur]; exact durationList_nonneg _ hinv.nn
+  refine ⟨inv_leaf _ w b2 hnn, fun ht => ?_⟩
+  obtain ⟨r1, r2, r3⟩ := tw.rest c (b4 c ht)
+  have hpres0 : w0.channels.contains c = allPres c I0 := by
+    rw [r2]; simp only [rootOf, allLeaves_none, allPres]
+  have hpres : w.channels.contains c = (allPres c I0 || Chain.presF T c false) := by
+    have := congrArg Option.isSome (b3 c 0)
+    rw [pv_isSome, Chain.chanF_isSome, pv_isSome, Chain.presF_or, hpres0] at this
+    exact this
+  refine ⟨⟨?_, ?_, ?_, ?_, ?_⟩, by simpa [rootOf, allLeaves_none] using r1⟩
+  · simp [itemsNodes, hne]
+  · rw [one_dur, leaf_duration, hdur]
+  · rw [one_win, leaf_windows, List.append_nil, rootOf_windows]
+  · rw [one_pres, leaf_allLeaves, hpres]
+  · intro hA t h0 ht'
+    rw [one_pres, leaf_allLeaves] at hA
+    rw [one_dur, leaf_duration] at ht'
+    rw [one_nodes, one_sample c _ t (by rw [leaf_duration]; exact ht'), leaf_sample w c t h0 ht']
+    have hb := b3 c t
+    rw [pv_of_present w c t hA] at hb
+    rw [hb]
+    unfold pv
+    rw [hpres0]
+    by_cases hp0 : allPres c I0 = true
+    · simp only [hp0, if_true]
+      rw [r3 (by rw [hpres0]; exact hp0) t h0 (by rw [rootOf_duration, ← hdur]; exact ht'),
+        rootOf_sample I0 c t h0 (by rw [← hdur]; exact ht')]
+    · have : allPres c I0 = false := by simpa using hp0
+      simp [this]
+
+
+end QP.C05
